@@ -175,6 +175,9 @@ class Gen:
             if 0.8 <= style < 0.9 and r.random() < 0.3:
                 want_record = not want_record   # mixed flows: describe then announce etc.
             reqs.append(self.one(i, m, flow_path, want_record, sdp, p_ok, contrary))
+        for q in reqs:      # request lines just below the 16 KiB line limit (a long query token)
+            if r.random() < 0.04:
+                q[2] += "?t=" + "a" * r.choice([4090, 4096, 8200, 12000, 15000])
         return [ws, wspath, env, WATCH, reqs]
 
 
@@ -433,6 +436,9 @@ class WGen:
                 reqs.append(self.setup(i, upath, sdp, p_ok))
             else:
                 reqs.append(wwrap(self.seq(i), m, g.cseq(i), upath if r.random() < p_ok else g.path(True)))
+        for q in reqs:      # long wrapped request lines, the whole WebSocket message below 4 KiB: over a real WebSocket
+            if q[0] == W_WRAP and r.random() < 0.1:     # DecodeRequest's single Read gets at most gorilla's 4096-byte buffer
+                q[4] += "?t=" + "a" * r.choice([1000, 2500, 3500, 3800])    # (see design/C12.md, C12-r8)
         return [wspath, env, W_WATCH, reqs]
 
 
